@@ -21,6 +21,7 @@ func init() {
 func runC14(c *Ctx) {
 	cliExitDiscipline(c, "R1")
 	c14R2(c)
+	c.shared("R5", "C03/R1", "a malformed or unreadable input is an error the tool reports with a non-zero status only if the library detects it: the decode loop ends on io.EOF alone and every other decode error is returned", func(o Obligation) bool { return strings.HasSuffix(o.Rule, "/R1") }, runC03)
 	c.note("R3 json-output-path: see json-text-as-data (one string from GetRootJson after a successful run, fmt.Print / WriteString, truncating open) plus the multi-input refusal.")
 	jsonTextAsData(c, "R3")
 	c14MultiRefusal(c)
